@@ -18,8 +18,11 @@
    correspondence run compares the ghosts with what the scripted peer saw and
    with Stream.IsEncrypted / the bytes on the wire.
 
-   Session resumption (resumeSession / handleSessionResumption) is not modelled
-   here.  Definitions only. *)
+   Session resumption (resumeSession / handleSessionResumption followed by
+   setupStreamEncryption's resumed branch and checkResumedSession) is modelled at
+   the end of the file as a function of the cache entry's shape and of the
+   peer's reply; the cache itself (lookup, expiry, command map) is C06/C07's
+   subject.  Definitions only. *)
 From Coq Require Import List NArith ZArith Bool.
 From Cedar Require Import Model.Negotiate.
 Import ListNotations.
@@ -46,7 +49,9 @@ Definition rc_rejects (r : rcode) : bool := match r with ROther => true | _ => f
 Inductive pmode := PClear | PSealed | PAbsent.      (* how the post-auth ad is sent *)
 
 (* what the stream ends up with *)
-Inductive skeysrc := KDerived (peer : keymat).      (* HKDF(ECDH(own private, peer's advertised public)) *)
+Inductive skeysrc :=
+| KDerived (peer : keymat)     (* HKDF(ECDH(own private, peer's advertised public)) *)
+| KCached.                     (* the key of the resumed cache entry *)
 
 Record result := mkR {
   r_auth : bool;                 (* reported Authentication *)
@@ -225,3 +230,49 @@ Definition server_hs (c : cfg) (s : cscript) : outcome :=
           end
         else server_finish c s (n_ciph n) false (n_meth n) []
     end.
+
+(* ---- resumed handshakes ------------------------------------------------------------ *)
+
+(* the KeyInfo of the cache entry being resumed: absent; empty data; 32 bytes;
+   another non-zero length — each with "the protocol name denotes AES-GCM" *)
+Inductive ekey := EKNone | EKEmpty (aes : bool) | EK32 (aes : bool) | EKBadLen (aes : bool).
+
+Record sentry := mkE {
+  e_key : ekey;
+  e_authed : option bool      (* policy attribute Authenticated, if present *)
+}.
+Definition entry_authenticated (e : sentry) : bool :=
+  match e_authed e with Some true => true | _ => false end.
+(* sessionHasUsableKey *)
+Definition usable_key (e : sentry) : bool := match e_key e with EK32 true => true | _ => false end.
+
+(* the scripted server's answer to a resumption request *)
+Inductive rreply := RClosed | RReply (rc : rcode).
+
+(* checkResumedSession *)
+Definition resumed_result (c : cfg) (e : sentry) (encrypted : bool) : outcome :=
+  if negb encrypted && needs_protection c then Err []
+  else if is_rq (c_auth c) && negb (entry_authenticated e) then Err []
+  else Ok (mkR (entry_authenticated e) encrypted mNONE [] encrypted (if encrypted then Some KCached else None)).
+
+(* resumeSession on an entry (named explicitly or found through the command map) *)
+Definition client_resume (c : cfg) (e : sentry) (rp : rreply) : outcome :=
+  match rp with
+  | RClosed => Err []
+  | RReply rc =>
+      if rc_rejects rc then Err []
+      else match e_key e with
+           | EK32 true => resumed_result c e true            (* SetSymmetricKey(cached key) *)
+           | EKBadLen true => Err []                         (* SetSymmetricKey refuses the length *)
+           | EK32 false | EKBadLen false =>                  (* not AES-GCM: no key installed; plaintextOutcome *)
+               if needs_protection c then Err [] else resumed_result c e false
+           | EKNone | EKEmpty _ => resumed_result c e false  (* no secret: setupStreamEncryption not called *)
+           end
+  end.
+
+(* handleSessionResumption; [found]: the cache lookup result *)
+Definition server_resume (c : cfg) (found : option sentry) : outcome :=
+  match found with
+  | None => Err []
+  | Some e => if usable_key e then resumed_result c e true else Err []
+  end.
